@@ -280,6 +280,24 @@ def str_trim_start_matches_char(ctx, args, st):
     return go(st, s)
 
 
+@model(r'^(?:core::)?str::<impl str>::contains::<(?:char|\[char; \d+\])>$')
+def str_contains_chars(ctx, args, st):
+    s = str_of(st, args[0]); cset = _char_set_arg(st, args[1])
+    if s.facts is not None: raise Unsupported('contains on abstract strings')
+    def go(s_, i):
+        if i == len(s.chars):
+            yield s_, 'ret', Bool(False); return
+        x = s.chars[i]
+        if isinstance(x, int):
+            if x in cset: yield s_, 'ret', Bool(True)
+            else: yield from go(s_, i + 1)
+            return
+        for s2, hit in ctx.ex.fork_bool(s_, z3.Or(*[x == k for k in cset])):
+            if hit: yield s2, 'ret', Bool(True)
+            else: yield from go(s2, i + 1)
+    return go(st, 0)
+
+
 @model(r'^(?:core::)?str::<impl str>::starts_with::<char>$')
 def str_starts_with_char(ctx, args, st):
     s = str_of(st, args[0]); c = _char_arg(args[1])
@@ -634,6 +652,30 @@ def fix_lengths(ex, st, s):
     yield from go(st, 0, [])
 
 
+@model(r'^(?:core::)?str::<impl str>::(find|rfind)::<&&?(?:str|String)>$')
+def str_find_str(ctx, args, st):
+    """byte offset of the first (last) occurrence of a pattern string"""
+    s, pat = str_of(st, args[0]), str_of(st, args[1])
+    if s.facts is not None or pat.facts is not None: raise Unsupported('find on abstract strings')
+    rev = 'rfind' in ctx.callee
+    def g():
+        for s1, lens in fix_lengths(ctx.ex, st, s):
+            offs = []; off = 0
+            for l in lens: offs.append(off); off += l
+            offs.append(off)
+            starts = list(range(0, len(s.chars) - len(pat.chars) + 1))
+            if rev: starts.reverse()
+            def go(s_, k):
+                if k == len(starts):
+                    yield s_, 'ret', NONE; return
+                i = starts[k]
+                for s2, hit in _match_at(ctx.ex, s_, tuple(s.chars), i, tuple(pat.chars)):
+                    if hit: yield s2, 'ret', Some(Int(offs[i], 'usize'))
+                    else: yield from go(s2, k + 1)
+            yield from go(s1, 0)
+    return g()
+
+
 @model(r'^(?:core::)?str::<impl str>::(find|rfind)::<char>$')
 def str_find_char(ctx, args, st):
     """byte offset of the first (last) occurrence of a concrete char"""
@@ -787,7 +829,7 @@ def str_bytes(ctx, args, st):
     return g()
 
 
-@model(r'^core::num::<impl u8>::(is_ascii_whitespace|is_ascii_digit|is_ascii_alphabetic|is_ascii_alphanumeric|is_ascii)$')
+@model(r'^core::num::<impl u8>::(is_ascii_whitespace|is_ascii_digit|is_ascii_hexdigit|is_ascii_alphabetic|is_ascii_alphanumeric|is_ascii_uppercase|is_ascii_lowercase|is_ascii_punctuation|is_ascii)$')
 def u8_ascii_pred(ctx, args, st):
     v = args[0]
     while isinstance(v, Ref): v = st.deref(v)
@@ -796,7 +838,8 @@ def u8_ascii_pred(ctx, args, st):
     op = ctx.callee.rsplit('::', 1)[-1]
     rng = lambda lo, hi: z3.And(z3.UGE(b, lo), z3.ULE(b, hi))
     e = {'is_ascii_whitespace': z3.Or(b == 0x20, b == 0x09, b == 0x0A, b == 0x0C, b == 0x0D), 'is_ascii_digit': rng(48, 57),
-         'is_ascii_alphabetic': z3.Or(rng(65, 90), rng(97, 122)), 'is_ascii_alphanumeric': z3.Or(rng(48, 57), rng(65, 90), rng(97, 122)), 'is_ascii': z3.ULT(b, 128)}[op]
+         'is_ascii_alphabetic': z3.Or(rng(65, 90), rng(97, 122)), 'is_ascii_hexdigit': z3.Or(rng(48, 57), rng(65, 70), rng(97, 102)), 'is_ascii_uppercase': rng(65, 90), 'is_ascii_lowercase': rng(97, 122),
+         'is_ascii_punctuation': z3.Or(rng(33, 47), rng(58, 64), rng(91, 96), rng(123, 126)), 'is_ascii_alphanumeric': z3.Or(rng(48, 57), rng(65, 90), rng(97, 122)), 'is_ascii': z3.ULT(b, 128)}[op]
     return ret(st, Bool(z3.simplify(e)))
 
 
